@@ -84,18 +84,19 @@ def showHdrs (hs : List Hdr) : String :=
   if hs.isEmpty then "-" else ",".intercalate (hs.map (fun h => Hex.encodeField (asciiLower h.name) ++ "=" ++ showCps h.value))
 
 inductive WireEv where
-  | req (connect replay : Bool) (hs : List Hdr)
+  | req (connect replay big : Bool) (hs : List Hdr)
   | sg (ms : Bytes)
   | sa (u p : Bytes)
   | sc
 
 def parseEv (s : String) : Option (Nat × WireEv) :=
   match s.splitOn "/" with
-  | [c, "R", m, r, hs] => do
+  | [c, "R", m, r, b, hs] => do
     let c ← c.toNat?; let hs ← parseHdrs hs
     if m ≠ "C" ∧ m ≠ "G" then none else
     if r ≠ "0" ∧ r ≠ "1" then none else
-    pure (c, .req (m = "C") (r = "1") hs)
+    if b ≠ "0" ∧ b ≠ "1" then none else
+    pure (c, .req (m = "C") (r = "1") (b = "1") hs)
   | [c, "SG", ms] => do let c ← c.toNat?; let ms ← hexOr ms; pure (c, .sg ms)
   | [c, "SA", u, p] => do let c ← c.toNat?; let u ← hexOr u; let p ← hexOr p; pure (c, .sa u p)
   | [c, "SC"] => do let c ← c.toNat?; pure (c, .sc)
@@ -108,6 +109,7 @@ def showOut (closedAfter : Bool) (o : Out) : String :=
   | .deny c => "D" ++ toString c ++ x
   | .tunnel => "T" ++ x
   | .invalid => "E" ++ x
+  | .tooLarge => "L" ++ x
   | .sMethod m => (if m = 2 then "S02" else "S00") ++ x
   | .sNoMethod => "SFF" ++ x
   | .sAuthOk => "SA0" ++ x
@@ -127,8 +129,8 @@ def runConn (L : Lib) (V : Option Validator) (modes : List Mode) (evs : List (Na
   for (c, we) in evs do
     if c ≥ modes.length then none
     let e ← match we with
-      | .req connect false hs => some (Ev.req connect hs)
-      | .req _ true _ => none                  -- replayed requests do not arrive on a client connection
+      | .req connect false big hs => some (Ev.req connect big hs)
+      | .req _ true _ _ => none                  -- replayed requests do not arrive on a client connection
       | .sg ms => some (Ev.sGreet ms)
       | .sa u p => some (Ev.sAuth u p)
       | .sc => some Ev.sConnect
@@ -144,8 +146,8 @@ def runHook (L : Lib) (V : Option Validator) (modes : List Mode) (evs : List (Na
   for (c, we) in evs do
     if c ≥ modes.length then none
     let he ← match we with
-      | .req true _ hs => some (HookEv.httpConnect hs)
-      | .req false replay hs => some (HookEv.requestheaders replay hs)
+      | .req true _ _ hs => some (HookEv.httpConnect hs)
+      | .req false replay _ hs => some (HookEv.requestheaders replay hs)
       | .sa u p => some (HookEv.socksAuth u p)
       | _ => none
     let r := hookStep L V (modeOf c) authd c he
